@@ -30,7 +30,10 @@ type Time []uint64
 func NewTime(index Time, activeStates []int) Time {
 	ret := make(Time, len(index))
 	for _, idx := range activeStates {
-		ret[idx] = 1
+		// skip unknown states (-1)
+		if idx >= 0 && idx < len(ret) {
+			ret[idx] = 1
+		}
 	}
 
 	return ret
@@ -63,7 +66,8 @@ func (t Time) String() string {
 func (t Time) Add(t2 Time) Time {
 	ret := make(Time, len(t))
 	if len(t) != len(t2) {
-		return t
+		copy(ret, t)
+		return ret
 	}
 
 	for i := range t2 {
@@ -326,7 +330,10 @@ func NewTimeIndex(index S, activeStates []int) *TimeIndex {
 		Time:  make(Time, len(index)),
 	}
 	for _, idx := range activeStates {
-		ret.Time[idx] = 1
+		// skip unknown states (-1)
+		if idx >= 0 && idx < len(ret.Time) {
+			ret.Time[idx] = 1
+		}
 	}
 
 	return ret
@@ -339,7 +346,7 @@ func (t TimeIndex) String() string {
 
 // StateName returns the name of the state at the given index.
 func (t TimeIndex) StateName(idx int) string {
-	if idx >= len(t.Index) {
+	if idx < 0 || idx >= len(t.Index) {
 		return ""
 	}
 
